@@ -130,6 +130,38 @@ def shape_statement_bytes(mnemonic, shape, with_size):
     return sh
 
 
+LITERALS = [("0x10", 0x10), ("0x0010", 0x10), ("0x000010", 0x10), ("0xFF", 0xFF), ("0x00FF", 0xFF), ("0x100", 0x100), ("0x0100", 0x100), ("0x000100", 0x100), ("0xFFFF", 0xFFFF),
+            ("0x00FFFF", 0xFFFF), ("0x10000", 0x10000), ("0x010000", 0x10000), ("0b00010000", 0x10), ("0b0000000100000000", 0x100), ("16", 16), ("256", 256), ("65536", 65536)]
+
+
+def shape_literal(mnemonic, shape, text, value):
+    """the operand is ONE literal token, possibly written with leading zeros: the width follows the VALUE, not the spelling"""
+    base = shape_statement(shape, False)
+
+    def sh(B):
+        d = base(B)
+        toks = B.I.hget(B.st, B.I.hget(B.st, d["p"]).fields["tokens"]).items
+        B.I.hmut(B.st, toks[0]).fields["value"] = mnemonic
+        for t in toks:
+            o = B.I.hget(B.st, t)
+            if o.fields["value"] == "e":
+                m = B.I.hmut(B.st, t)
+                m.fields["value"] = text
+                m.fields["type"] = B.enum("a816.parse.tokens.TokenType", "NUMBER")
+        return {"p": d["p"], "resolver": d["resolver"], "addr": shapes.lorom_address(B), "shape": shape, "size_text": None, "mnemonic": mnemonic, "v": value}
+    return sh
+
+
+def literal_cases(E):
+    cs = []
+    for m, shp in (("lda", "e"), ("lda", "#e"), ("lda", "(e),y"), ("adc", "e,x"), ("jmp", "e"), ("sta", "[e]")):
+        for text, value in LITERALS:
+            cs.append(Case(H + "statement_bytes_contract", f"{m} {shp} with e written {text}", shape_literal(m, shp, text, value),
+                           target=["a816.parse.parser_states.parse_opcode", "a816.parse.codegen.generate_opcode", N + "OpcodeNode.emit", N + "ExpressionNode.get_value_string_len"], group="literal-spelling",
+                           drop_overrides=["a816.parse.ast.expression.eval_expression"], no_contracts=True))
+    return cs
+
+
 def end_to_end_cases(E, tier):
     import zlib
     table = E.lifter.module("a816.cpu.cpu_65c816").snes_opcode_table
@@ -155,7 +187,7 @@ def end_to_end_cases(E, tier):
 
 def cases(E):
     import os
-    cs = end_to_end_cases(E, os.environ.get("VERIF_TIER", "quick"))
+    cs = end_to_end_cases(E, os.environ.get("VERIF_TIER", "quick")) + literal_cases(E)
     from vf.specs import syntax
     for shp in syntax.SHAPES:
         for ws in (False, True):
